@@ -20,8 +20,14 @@ Items == {D(1, <<<<1, 0, 0, 0>>, <<2, 0, 0, 0>>, <<3, 0, 0, 0>>, <<4, 0, 0, 0>>>
 IsData(it) == it.k = "data"
 Blocks == {<<i1>> : i1 \in {x \in Items : IsData(x)}} \cup {<<i1, i2>> : i1 \in Items, i2 \in {x \in Items : IsData(x)}}
           \cup {<<i1, i2, i3>> : i1 \in {x \in Items : IsData(x)}, i2 \in {x \in Items : ~IsData(x)}, i3 \in {x \in Items : IsData(x)}}
+\* blocks with labels: a backward and a forward reference, a gap between the label and its use
+Lab(x) == [k |-> "lab", n |-> x]
+Ref(x) == [k |-> "ref", n |-> x]
+LabBlocks == {<<Lab("la"), i1, Ref("la")>> : i1 \in {x \in Items : x.k # "org"}}
+             \cup {<<Ref("lb"), i1, Lab("lb"), Ref("lb")>> : i1 \in {x \in Items : x.k # "org"}}
+             \cup {<<Lab("la"), Ref("lb"), Ref("la"), Lab("lb")>>}
 A(a, its) == [k |-> "asm", a |-> a, items |-> its]
-AsmCmds == {A(a, b) : a \in {-1, 0, 16, 60, 256, 16380}, b \in Blocks}
+AsmCmds == {A(a, b) : a \in {-1, 0, 16, 60, 256, 16380}, b \in Blocks} \cup {A(a, b) : a \in {-1, 16, 256}, b \in LabBlocks}
 \* fetch sessions: write a load-immediate instruction byte by byte, optionally overwrite its immediate with
 \* another write (8, 16 or 32 bits wide, which the byte order then places), execute it
 \* via = "asm": the instruction is assembled interactively instead of written byte by byte
